@@ -32,6 +32,8 @@ pub mod stdshim {
             #[verifier::external_body]
             pub fn to_str(&self) -> (r: Option<&str>) ensures r.is_some() && r.unwrap()@ == self.view() { unimplemented!() }
             #[verifier::external_body]
+            pub fn is_absolute(&self) -> (r: bool) ensures r == (self.view().len() > 0 && self.view()[0] == '/') { unimplemented!() }
+            #[verifier::external_body]
             pub fn join<S: StrView + ?Sized>(&self, s: &S) -> (r: PathBuf) ensures r.view() == path_join(self.view(), s.sv()) { unimplemented!() }
         }
         impl PathBuf {
@@ -44,12 +46,21 @@ pub mod stdshim {
             { unimplemented!() }
         }
     }
+    pub mod env {
+        use vstd::prelude::*;
+        use super::super::*;
+        // the process's working directory: unrelated to the configuration file's directory
+        #[verifier::external_body]
+        pub fn current_dir() -> (r: Result<super::path::PathBuf, IoError>) { unimplemented!() }
+    }
     pub mod fs {
         use vstd::prelude::*;
         use super::super::*;
         pub trait PathArg { spec fn pv(&self) -> Seq<char>; }
         impl PathArg for &String { open spec fn pv(&self) -> Seq<char> { self@ } }
         impl PathArg for super::path::PathBuf { open spec fn pv(&self) -> Seq<char> { self.view() } }
+        impl PathArg for &super::path::PathBuf { open spec fn pv(&self) -> Seq<char> { self.view() } }
+        impl PathArg for &str { open spec fn pv(&self) -> Seq<char> { self@ } }
         // std::fs::read_to_string: Ok iff the file can be read as text; no effect
         #[verifier::external_body]
         pub fn read_to_string<P: PathArg>(path: P, Tracked(w): Tracked<&mut World>) -> (r: Result<String, IoError>)
@@ -57,6 +68,42 @@ pub mod stdshim {
                 *final(w) == *old(w),
                 r.is_ok() == readable(path.pv()),
                 r.is_ok() ==> old(w).fs.dom().contains(path.pv()) && encode_utf8(r.unwrap()@) == old(w).fs[path.pv()],
+        { unimplemented!() }
+        // other mutating std::fs calls: none of them is ever legitimate in check mode, nor on an in-scope source file
+        #[verifier::external_body]
+        pub fn remove_file<P: PathArg>(path: P, Tracked(w): Tracked<&mut World>) -> (r: Result<(), IoError>)
+            requires
+                !old(w).check_mode, // [C04.nowrite]
+                atomic_inv(*old(w)), // [C07.frame]
+                is_temp(path.pv()), // [C07.nonatomic]
+            ensures
+                same_but_fs(*old(w), *final(w)), final(w).log == old(w).log,
+                forall|p: Seq<char>| p != path.pv() ==> (#[trigger] final(w).fs.dom().contains(p)) == old(w).fs.dom().contains(p),
+                forall|p: Seq<char>| p != path.pv() ==> (#[trigger] final(w).fs[p]) == old(w).fs[p],
+        { unimplemented!() }
+        #[verifier::external_body]
+        pub fn copy<P: PathArg, Q: PathArg>(from: P, to: Q, Tracked(w): Tracked<&mut World>) -> (r: Result<u64, IoError>)
+            requires
+                !old(w).check_mode, // [C04.nowrite]
+                atomic_inv(*old(w)), // [C07.frame]
+                !old(w).protected.contains(to.pv()) && (is_temp(to.pv()) || to.pv() == lock_path()), // [C07.nonatomic]
+            ensures
+                same_but_fs(*old(w), *final(w)), final(w).log == old(w).log,
+                forall|p: Seq<char>| p != to.pv() ==> (#[trigger] final(w).fs.dom().contains(p)) == old(w).fs.dom().contains(p),
+                forall|p: Seq<char>| p != to.pv() ==> (#[trigger] final(w).fs[p]) == old(w).fs[p],
+        { unimplemented!() }
+        #[verifier::external_body]
+        pub fn rename<P: PathArg, Q: PathArg>(from: P, to: Q, Tracked(w): Tracked<&mut World>) -> (r: Result<(), IoError>)
+            requires
+                !old(w).check_mode, // [C04.nowrite]
+                atomic_inv(*old(w)), // [C07.frame]
+                is_temp(from.pv()) && old(w).fs.dom().contains(from.pv()), // [C07.source]
+                old(w).protected.contains(to.pv()), // [C15.target]
+                old(w).intended.dom().contains(to.pv()) && old(w).fs[from.pv()] == old(w).intended[to.pv()], // [C07.complete]
+            ensures
+                r.is_ok() ==> final(w).fs == old(w).fs.remove(from.pv()).insert(to.pv(), old(w).fs[from.pv()]),
+                r.is_err() ==> final(w).fs == old(w).fs,
+                same_but_fs(*old(w), *final(w)), final(w).log == old(w).log,
         { unimplemented!() }
         // std::fs::write: create/truncate + write, NOT atomic: on error anything may be left at that path
         #[verifier::external_body]
